@@ -96,7 +96,6 @@ class C04(Check):
             res.hist['mode_' + g.mode] += 1
             res.hist['n_ignores_%d' % k] += 1
             entries = [sname, 'R0', 'R2']
-            desc = peg.render(g2, peg.Style(bits=list(style.bits)) if False else None)
             mod = diff.eval_grammar(res, g2, entries, inputs + longer, nontrivial, 'c04', key_whole=True)
             if mod is None:
                 return
